@@ -21,6 +21,44 @@ class _Unknown:
 
 UNKNOWN = _Unknown()
 
+
+class _Refined:
+    """an otherwise unknown value of which only the truthiness is known (learnt from a branch)"""
+
+    def __init__(self, truth):
+        self.truth = truth
+
+    def __bool__(self):
+        return self.truth
+
+    def __repr__(self):
+        return "TRUTHY" if self.truth else "FALSY"
+
+    def __eq__(self, other):
+        return isinstance(other, _Refined) and other.truth == self.truth
+
+    def __hash__(self):
+        return hash(("refined", self.truth))
+
+
+TRUTHY, FALSY = _Refined(True), _Refined(False)
+
+
+def refine(ex, test_ast, env, label):
+    """environment on the `label` edge of a test that evaluated to UNKNOWN: a bare variable
+    (or `not var`) test teaches its truthiness"""
+    e = test_ast
+    truth = label == "true"
+    while isinstance(e, ast.UnaryOp) and isinstance(e.op, ast.Not):
+        e = e.operand
+        truth = not truth
+    if isinstance(e, (ast.Name, ast.Attribute)):
+        k = ex.key_of(e)
+        if k is not None and k not in ex.frozen:
+            env = dict(env)
+            env[k] = TRUTHY if truth else FALSY
+    return env
+
 PURE_METHODS = {"lower", "upper", "strip", "lstrip", "rstrip", "startswith", "endswith", "casefold",
                 "split", "isdigit", "isnumeric", "isdecimal", "find", "get", "keys", "items", "values", "count"}
 
@@ -64,6 +102,10 @@ class Explorer:
         k = self.key_of(e)
         if k is not None and k in env:
             return env[k]
+        r = self._ev(e, env, k)
+        return r
+
+    def _ev(self, e, env, k):
         if isinstance(e, ast.Constant):
             return e.value
         if isinstance(e, (ast.Name, ast.Attribute)) and k is not None and k.startswith("gunicorn."):
@@ -88,6 +130,38 @@ class Explorer:
             if any(v is UNKNOWN for v in vals):
                 return UNKNOWN
             return tuple(vals)
+        if isinstance(e, (ast.ListComp, ast.GeneratorExp, ast.SetComp)):
+            out = []
+
+            def gen(i, env2):
+                if i == len(e.generators):
+                    out.append(self.ev(e.elt, env2))
+                    return True
+                g = e.generators[i]
+                seq = self.ev(g.iter, env2)
+                if seq is UNKNOWN or isinstance(seq, _Refined) or not isinstance(seq, (tuple, list, str, bytes, dict, set, frozenset)):
+                    return False
+                for item in seq:
+                    env3 = dict(env2)
+                    for tt, vv in _bind(g.target, item):
+                        k2 = self.key_of(tt)
+                        if k2 is None:
+                            return False
+                        env3[k2] = vv
+                    ok = True
+                    for cond in g.ifs:
+                        c = self.ev(cond, env3)
+                        if c is UNKNOWN:
+                            return False
+                        if not c:
+                            ok = False
+                            break
+                    if ok and not gen(i + 1, env3):
+                        return False
+                return True
+            if not gen(0, env) or any(x is UNKNOWN for x in out):
+                return UNKNOWN
+            return tuple(out)
         if isinstance(e, ast.Dict):
             try:
                 ks = [self.ev(x, env) for x in e.keys]
@@ -136,7 +210,7 @@ class Explorer:
             res = True
             for op, r in zip(e.ops, e.comparators):
                 right = self.ev(r, env)
-                if left is UNKNOWN or right is UNKNOWN:
+                if left is UNKNOWN or right is UNKNOWN or isinstance(left, _Refined) or isinstance(right, _Refined):
                     return UNKNOWN
                 try:
                     if isinstance(op, ast.Eq):
@@ -336,7 +410,7 @@ class Explorer:
                     labels = ("true",) if v else ("false",)
                 for b, l in node.out:
                     if l in labels:
-                        stack.append((b, env, events, path, None))
+                        stack.append((b, refine(self, node.ast, env, l) if v is UNKNOWN else env, events, path, None))
                     elif l == "exc" and self.follow_implicit_exc:
                         stack.append((b, env, events, path, None))
                 continue
